@@ -19,6 +19,15 @@ def gen_case(rng, cid, nmax=3, rotations_only=False, ev="FaceOp"):
     while True:
         N = rng.randint(2, nmax)
         K, per, orient, entries = faces.random_expressible(rng, rotations_only=rotations_only)
+        if ev == "FaceOp" and rng.random() < 0.04:
+            # more than ten faces (a 13-tile LLC grid has that many), all in one orientation
+            K = rng.choice([(6, 2), (4, 3), (11, 1), (2, 6)])
+            per = (rng.random() < 0.5, rng.random() < 0.5)
+            orient = faces.random_orient(rng, 1, rotations_only) * (K[0] * K[1])
+            entries, ok = faces.derive_table(K, per, orient)
+            if not ok:
+                continue
+            N = 2
         nf = K[0] * K[1]
         if not entries:
             continue
